@@ -44,6 +44,8 @@ def episode(seed, spread, fees, rate_path, latency, delay, use_future, reward):
         a = r.uniform(-1, 1, len(cs))
         _, rew, done, info = env.step(a)
         rewards.append(rew); nlv_after.append(env.broker.net_liquidation_value()); nows.append(env.now())
+    env._c07_events = sorted(e.time for e in evs)
+    env._c07_grid = grid
     return env, rewards, nlv_after
 
 
@@ -75,8 +77,14 @@ def check_episode(seed, cfg):
         if abs(d_nlv - exp) > tol(rb.context_pre.nlv):
             bad.append(("ledger_replays_recorded_trades", {"k": k, "post_minus_pre": d_nlv, "ledger": exp}))
             break
-        # stamped with the time of the latest event processed before the execution
-        book_times = [env.exchange[c].history["time"] for c in env.action_space.contracts]
+        # stamped with the time of the latest event processed before the execution: decision k executes during the step that starts at
+        # grid[k], after the events stamped <= grid[k] + latency (computed here from the event list, not from the environment)
+        if k < len(env._c07_grid):
+            limit = env._c07_grid[k] + timedelta(seconds=lat)
+            want_stamp = max(t for t in env._c07_events if t <= limit)
+            if rb.time != want_stamp:
+                bad.append(("record_stamped_with_latest_event_before_execution", {"k": k, "stamp": str(rb.time), "expected": str(want_stamp)}))
+                break
     for k, r_ in enumerate(rewards):
         if k >= len(tr):
             break
